@@ -7,6 +7,7 @@ import (
 	"testing"
 
 	goat "github.com/avos-io/goat"
+	"google.golang.org/grpc"
 	"pgregory.net/rapid"
 	"verifharness/kit"
 )
@@ -21,6 +22,8 @@ type ConvCase struct {
 	// ArmEnd places every caller's end-observing receive inside the window
 	// between RecvMsg's done-check and its select (hook client.RecvMsg.afterDoneCheck).
 	ArmEnd bool `json:"arm_end,omitempty"`
+	// Intercept installs pass-through unary and stream interceptors on the server and the client.
+	Intercept bool `json:"intercept,omitempty"`
 }
 
 func (c ConvCase) key() string {
@@ -47,6 +50,7 @@ func genConvCase(t *rapid.T, maxConvs int, kinds []int, o kit.GenOpts, topoKinds
 	c.Convs = kit.GenConvs(t, maxConvs, kinds, o)
 	c.GateA = rapid.Bool().Draw(t, "gate_a")
 	c.GateB = rapid.Bool().Draw(t, "gate_b")
+	c.Intercept = rapid.IntRange(0, 3).Draw(t, "intercept") == 0
 	if c.GateA || c.GateB {
 		c.Tape = rapid.SliceOfN(rapid.Byte(), 0, 64).Draw(t, "tape")
 	}
@@ -54,12 +58,31 @@ func genConvCase(t *rapid.T, maxConvs int, kinds []int, o kit.GenOpts, topoKinds
 }
 
 func (c ConvCase) opts() kit.RunOpts {
-	return kit.RunOpts{Topo: c.Topo, GateA: c.GateA, GateB: c.GateB, Tape: c.Tape}
+	o := kit.RunOpts{Topo: c.Topo, GateA: c.GateA, GateB: c.GateB, Tape: c.Tape}
+	if c.Intercept {
+		o.SOpts = []goat.ServerOption{
+			goat.UnaryInterceptor(func(ctx context.Context, req any, _ *grpc.UnaryServerInfo, h grpc.UnaryHandler) (any, error) {
+				return h(ctx, req)
+			}),
+			goat.StreamInterceptor(func(srv any, ss grpc.ServerStream, _ *grpc.StreamServerInfo, h grpc.StreamHandler) error {
+				return h(srv, ss)
+			}),
+		}
+		o.DOpts = []goat.DialOption{
+			goat.WithUnaryInterceptor(func(ctx context.Context, m string, req, reply any, cc *grpc.ClientConn, inv grpc.UnaryInvoker, opts ...grpc.CallOption) error {
+				return inv(ctx, m, req, reply, cc, opts...)
+			}),
+			goat.WithStreamInterceptor(func(ctx context.Context, d *grpc.StreamDesc, cc *grpc.ClientConn, m string, st grpc.Streamer, opts ...grpc.CallOption) (grpc.ClientStream, error) {
+				return st(ctx, d, cc, m, opts...)
+			}),
+		}
+	}
+	return o
 }
 
 // convLabels computes the common labels of a conv case.
 func convLabels(c ConvCase, tap []kit.Ev) (labels []string, interleaved bool, maxMsgs int, concurrent bool) {
-	labels = append(labels, "topo="+c.Topo.Kind, fmt.Sprintf("ser=%v", c.Topo.Serialize), fmt.Sprintf("gated=%v", c.GateA || c.GateB))
+	labels = append(labels, "topo="+c.Topo.Kind, fmt.Sprintf("ser=%v", c.Topo.Serialize), fmt.Sprintf("gated=%v", c.GateA || c.GateB), fmt.Sprintf("intercept=%v", c.Intercept))
 	nstreams := 0
 	for _, cv := range c.Convs {
 		labels = append(labels, "kind="+kit.KindNames[cv.Kind])
@@ -244,3 +267,12 @@ func execC02(t *testing.T, c ConvCase) (v Verdict) {
 }
 
 func TestC02(t *testing.T) { checkProp(t, "C02", "main", genC02, execC02) }
+
+// The trailer-vs-reset scenario of C03 with a handler that returns success: the caller must see io.EOF.
+func TestC02Race(t *testing.T) {
+	checkProp(t, "C02", "race", func(t *rapid.T) C03Race {
+		c := genC03Race(t)
+		c.Ret = kit.ErrSpec{Kind: "nil"}
+		return c
+	}, execC03Race)
+}
